@@ -62,3 +62,30 @@ Theorem C07_authority_split : forall n : str,
     end.
 Proof. exact split_netloc_is_auth_split. Qed.
 Print Assumptions C07_authority_split.
+
+(** last clause: for EVERY url value (reachable or encoded=True garbage) the raw accessors
+    re-compose to str(url) - up to the two normalisations __str__ itself applies and the
+    statement of the property implies: an explicit port equal to the scheme default is
+    dropped (then the authority is re-assembled from raw_user, raw_password and
+    host_subcomponent), and an empty path under an authority is printed as "" when neither
+    query nor fragment follows although raw_path reports "/" ([printed_raw_path]).  str()
+    fails only where an authority accessor fails. *)
+From Yarl Require Import Model.Url Proofs.StrRecompose.
+Theorem C07_recompose : forall (B : backend) (u : url) (p : option N),
+  explicit_port u = Ok p ->
+  (match p with Some pt => opt_N_eqb (Some pt) (default_port (u_scheme u)) = false | None => True end) ->
+  url_str B u = Ok (unsplit_result (u_scheme u) (u_netloc u) (printed_raw_path u) (u_query u) (u_fragment u)).
+Proof. exact str_recomposes. Qed.
+Print Assumptions C07_recompose.
+
+Theorem C07_recompose_default_port : forall (B : backend) (u : url) pt h ru rp,
+  explicit_port u = Ok (Some pt) -> opt_N_eqb (Some pt) (default_port (u_scheme u)) = true ->
+  host_subcomponent u = Ok h -> raw_user u = Ok ru -> raw_password u = Ok rp ->
+  url_str B u = Ok (unsplit_result (u_scheme u) (make_netloc' B ru rp h None false) (printed_raw_path u) (u_query u) (u_fragment u)).
+Proof. exact str_recomposes_default_port. Qed.
+Print Assumptions C07_recompose_default_port.
+
+Theorem C07_str_fails_only_with_authority : forall (B : backend) (u : url) (e : exn), url_str B u = Err e ->
+  explicit_port u = Err e \/ host_subcomponent u = Err e \/ raw_user u = Err e \/ raw_password u = Err e.
+Proof. exact str_fails_only_with_authority. Qed.
+Print Assumptions C07_str_fails_only_with_authority.
